@@ -232,6 +232,8 @@ func composeCfgFile(n int) []byte {
 	return []byte(fmt.Sprintf("CONSTANTS\n  N = %d\n  MaxCmd = 3\n  MaxVar = 2\n  NCtx = %d\n  Nesting = TRUE\n  TaskAllow = TRUE\n  AtomicLaunch = TRUE\n  HookKinds = {\"none\", \"ok\", \"fail\"}\nINIT TInit\nNEXT TNext\nCONSTRAINT HW\nINVARIANTS CommandsAfterDependencies StopsAtFailure FinalOK RunOnlyWhileStageRunning UpBeforeUse DownAfterAll OneUpAtATime NothingRunsAtReturn NoDoubleLaunch\nPOSTCONDITION PostCond\nCHECK_DEADLOCK FALSE\n", n, cmpNCtx))
 }
 
+var reANSI = regexp.MustCompile("\x1b\\[[0-9;]*m")
+var reSummary = regexp.MustCompile(`^- Stage (s\d+) (was completed|was skipped|failed|was cancelled)`)
 var reJobTag = regexp.MustCompile(`# ([sc])(\d+)-(up|down|cb|ca|tb|ta|cmd)\s*$`)
 
 // ComposeCheck model-checks Taskctl.tla on the given configurations (thorough-only ones after a
@@ -351,6 +353,30 @@ func ComposeCheck(env *core.Env, rep *core.Report, k int, models ...string) map[
 			out[i].bad = "Schedule did not return (no sched-exit event); exit status " + fmt.Sprint(res.Exit)
 			return
 		}
+		// what the user is told: the summary on stdout and the exit status
+		lines := make([]string, c.N)
+		for j := range lines {
+			lines[j] = "-"
+		}
+		printed := false
+		for _, ln := range strings.Split(reANSI.ReplaceAllString(res.Stdout, ""), "\n") {
+			ln = strings.TrimSpace(ln)
+			printed = printed || strings.HasPrefix(ln, "Summary:")
+			m := reSummary.FindStringSubmatch(ln)
+			if m == nil {
+				continue
+			}
+			j := id(m[1]) - 1
+			if j < 0 || j >= c.N {
+				continue
+			}
+			v := map[string]string{"was completed": "D", "was skipped": "S", "failed": "E", "was cancelled": "C"}[m[2]]
+			if lines[j] != "-" {
+				v = "dup"
+			}
+			lines[j] = v
+		}
+		evs = append(evs, Event{"e": "summary", "printed": printed, "exitfail": res.Exit != 0, "lines": lines})
 		evs = append(evs, Event{"e": "end"})
 		out[i].evs = evs
 	})
